@@ -145,3 +145,11 @@ Example C05_forms_demo :
     | _, _ => false
     end) form_pairs = true.
 Proof. vm_compute. repeat split; reflexivity. Qed.
+
+(* ---- tie to the source, re-checked on every run: the default tolerance of the specification is the library's
+   FloatPrecision constant (Gen/SourceFacts.v, regenerated from /repo by harness/cmd/srcfacts before the build). *)
+From Verif Require SourceFacts SnippetTable.
+
+Theorem C05_default_tolerance_is_the_source : parse_float SourceFacts.src_float_precision = Some default_tol.
+Proof. exact SnippetTable.default_tol_is_source. Qed.
+Print Assumptions C05_default_tolerance_is_the_source.
